@@ -63,7 +63,7 @@ Proof.
   exists wd'. split; [exact E|]. split; [exact Hr|]. split; [exact Hok'|].
   fold existing in HF. fold targets in HF.
   induction HF as [|w w' l l' H HF IH]; constructor; [|exact IH].
-  cbv beta in H. destruct H as [Ho [Hb [Hk Hg]]]. split; [exact Ho|]. split; [exact Hb|]. split; [exact Hk|].
+  cbv beta in H. destruct H as [Ho [Hb [Hk [Hg _]]]]. split; [exact Ho|]. split; [exact Hb|]. split; [exact Hk|].
   intros r. split; [apply Hg|]. intros Hback t Ht. unfold refs. rewrite Hk, Hg.
   apply expected_no_refs; assumption.
 Qed.
